@@ -1004,7 +1004,12 @@ pub fn run() {
                 let e: f64 = [0.05, -0.4, 3.0, -120.0, 4000.0][choose("cfg.fterr", 5) as usize];
                 if kind == Kind::Periodic { e.clamp(-120.0, 120.0) } else { e }
             } else {
-                uniform("cfg.err", -0.0005, 0.0005)
+                // C01 scenario: the premise is that ALL sources agree. The selection interval of a
+                // noise-free source shrinks to 0.25 x delay (about 0.5 ms at the smallest delay used
+                // here), so two honest servers 1 ms apart are legitimately not in agreement; keep the
+                // scenario's server errors well inside that width.
+                let w = if scenario { 0.0002 } else { 0.0005 };
+                uniform("cfg.err", -w, w)
             };
             let (lo, hi) = limits_opts[choose("cfg.limits", 4) as usize];
             let limits = PollIntervalLimits {
@@ -1136,11 +1141,8 @@ pub fn run() {
         }
         // C01 converse: the consensus-large-offset scenario must end in a step by about -D or in a stop
         if scenario && !simkit::out_of_budget() {
-            let steps: Vec<i64> = clock
-                .calls_since(0)
-                .iter()
-                .filter_map(|c| if let ClockCall::Step(d) = c.call { Some(d) } else { None })
-                .collect();
+            // every step since creation (calls_since is a bounded window of recent calls)
+            let steps: Vec<i64> = clock.steps();
             let stopped = sh2.lock().unwrap().stopped;
             if scenario_big {
                 probe("scenario-outside-threshold");
